@@ -160,7 +160,7 @@ RANK2_OVERRIDES = {
     ('calibration_measurement', 'minus_tolerance'): [[[0.5, 0.25], [0.125, 1.0]], [[2.0, 3.0], [4.0, 5.0]]],
 }
 UNIT_OPTS = [None, 'm', {'$enum': ['Unit', 'SECOND'], 'v': 's'}, 'my-unit', 'u' * 127, 'u' * 128, 'u' * 255]
-ROUTES = ['kw', 'dict', 'as', 'later', 'setattrs']
+ROUTES = ['kw', 'dict', 'as', 'later', 'setattrs', 'shared-dict']     # shared-dict: one dict object re-used for equal values
 
 
 def settable(kind: str) -> list:
@@ -217,8 +217,10 @@ def build_spec(kind: str, mode: str, ctx: Any, tier: str) -> tuple[dict, dict]:
                 kw[ad.kw] = v
             else:
                 kw[ad.kw] = {'$as': {'value': v, 'units': u}}
-        elif route == 'dict':
+        elif route in ('dict', 'shared-dict'):
             kw[ad.kw] = {'$dict': {'value': v, **({'units': u} if u is not None else {})}}
+            if route == 'shared-dict':
+                kw[ad.kw]['shared'] = True
         elif route == 'as':
             kw[ad.kw] = {'$as': {'value': v, **({'units': u} if u is not None else {})}}
         elif route == 'later':
